@@ -30,12 +30,6 @@ func (*C17) Plan(tier string) orch.Plan {
 	return orch.Plan{Episodes: n, Batch: 1}
 }
 
-var c17BuiltinNames = map[string]int{
-	"fail": model.Fail, "success": model.Success, "ok": model.OK, "always": model.Always, "off": model.Off, "no": model.Off, "disabled": model.Off,
-	"trace": model.Trace, "debug": model.Debug, "devel": model.Debug, "dev": model.Debug, "develop": model.Debug, "info": model.Info,
-	"warn": model.Warn, "warning": model.Warn, "error": model.Error, "fatal": model.Fatal, "panic": model.Panic,
-}
-
 func (p *C17) Gen(seed uint64, i int, tier string) *scen.Scenario {
 	r := scen.NewRng(scen.Mix(seed, scen.HashString("C17"), uint64(i)))
 	sc := &scen.Scenario{Property: "C17", Engine: "PROC", Seed: scen.Mix(seed, 117, uint64(i)) >> 12}
@@ -214,10 +208,10 @@ func (p *C17) Check(sc *scen.Scenario, run *orch.Run, env *orch.Env) []orch.Viol
 	}
 	ops := indexOps(run)
 	reg := model.NewRegistry()
-	names := map[string]int{} // every text that names a level (exact)
-	for k, v := range c17BuiltinNames {
-		names[k] = v
-	}
+	// texts that certainly name a level: the printed names of the built-in levels as this build
+	// reports them, and the titles registered so far. Aliases ("dev", "warn" ...) are an extra of the
+	// implementation: a title that ParseLevel understood before the registration may be refused or not.
+	names := map[string]int{}
 	known := map[int]bool{}
 	for l := 0; l < model.MaxLevel; l++ {
 		known[l] = true
@@ -257,6 +251,11 @@ func (p *C17) Check(sc *scen.Scenario, run *orch.Run, env *orch.Env) []orch.Viol
 					for n := range names {
 						if strings.EqualFold(n, rop.Name) {
 							titleFoldUsed = true
+						}
+					}
+					if prevQ != nil {
+						if lv, asked := prevQ.Parses[rop.Name]; asked && lv != -99999 {
+							titleFoldUsed = true // understood by ParseLevel already: possibly an alias
 						}
 					}
 					switch {
@@ -324,8 +323,11 @@ func (p *C17) Check(sc *scen.Scenario, run *orch.Run, env *orch.Env) []orch.Viol
 					if v.String != c.Title {
 						add("C17.title", "string", "level %d registered as %q prints as %q", v.Level, c.Title, v.String)
 					}
-				} else if want := model.BuiltinNames[v.Level]; v.String != want {
-					add("C17.title", "builtin", "built-in level %d prints as %q (expected %q)", v.Level, v.String, want)
+				} else if v.String != "" {
+					if other, dup := names[v.String]; dup && other != v.Level {
+						add("C17.title", "builtin", "built-in levels %d and %d print the same name %q", other, v.Level, v.String)
+					}
+					names[v.String] = v.Level
 				}
 				caseKind := "lower"
 				if v.String != strings.ToLower(v.String) {
